@@ -279,8 +279,8 @@ func VerifC20_RetrierCheck() {
 	}
 }
 
-// VerifC20_Truncate: text truncation on an arbitrary valid UTF-8 string of up to 4
-// (quick) / 6 (thorough) bytes and every limit 0..8: the result never exceeds the
+// VerifC20_Truncate: text truncation on an arbitrary valid UTF-8 string of up to 6
+// (quick) / 8 (thorough) bytes and every limit 0..8: the result never exceeds the
 // limit (in bytes resp. runes), is still valid UTF-8 (no character is split), is the
 // input itself when that already fits, and the flag tells whether it was cut.
 //
@@ -288,7 +288,7 @@ func VerifC20_RetrierCheck() {
 //vf:thorough unwind=60 decisions=900 paths=20000000 arith=bv steps=16000000
 //vf:expect reach=fits reach=cut-bytes reach=cut-runes
 func VerifC20_Truncate() {
-	n := vfChoice("len", 5+2*vfTier())
+	n := vfChoice("len", 7+2*vfTier())
 	s := vfString("s", n)
 	vfAssume(utf8.ValidString(s))
 	limit := vfChoice("limit", 9)
